@@ -17,7 +17,7 @@ import (
 
 const (
 	workCap     = 200_000 // instrumented statements per library call (a legitimate call needs < 2 000)
-	nCorrupt    = 18
+	nCorrupt    = 19
 	nViewFault  = 6
 	nMisc       = 6
 	nURLCorrupt = 6
@@ -514,6 +514,13 @@ func corruptCode(code string, kind, arg int) string {
 			w = fmt.Sprintf("%0*d", len(b), (v+add)%pow10(len(b)))
 		}
 		return w
+	case 19: // the code followed (or preceded) by exactly as many bytes as make a narrow length counter wrap
+		n := []int{255, 256, 257, 512, 65535, 65536, 65537, 768}[arg%8]
+		pad := strings.Repeat(string(rune('0'+arg%10)), n)
+		if arg%3 == 0 {
+			return pad + code
+		}
+		return code + pad
 	default: // upper/lower-case hex or octal spellings of the same number
 		var v uint64
 		for _, c := range b {
